@@ -92,6 +92,9 @@ Definition final_matches (o : obs) (s : state) : bool :=
   match client s with LHalt => true | _ => false end
   && negb (crashed s)
   && Bool.eqb (o_final_running o) (match sst s with Active => true | _ => false end)
+  (* a running source keeps processing blocks (no_wedge + a live producer), and the core loop is then not
+     stuck inside a closure *)
+  && Bool.eqb (o_progress o) (o_final_running o)
   && (negb (o_progress o) || core_free s).
 
 Record case := mkCase { k_obs : obs }.
